@@ -1726,3 +1726,18 @@ impl ServerAeadCodec {
         Ok(Self { keys, decode_state: vsrv__DecodeState::Init, encode_state: vsrv__EncodeState::Init, connected: false })
     }
 }
+
+//@@ octo-squirrel-client/src/client/config.rs:30-38  struct SslConfig  sha=335b473079324dbf
+#[derive(Default, Clone)]
+pub struct cli__SslConfig {
+    pub certificate_file: Option<String>,
+    pub key_file: Option<String>,
+    pub server_name: Option<String>,
+}
+
+//@@ octo-squirrel-client/src/client/vmess.rs:175-179  mod udp / fn new_codec  sha=efec707c29df7888
+fn vudp__new_codec(addr: &Address, config: &ServerConfig<cli__SslConfig>) -> Result<ClientAEADCodec> {
+        let security = if config.cipher == CipherKind::ChaCha20Poly1305 { SecurityType::Chacha20Poly1305 } else { SecurityType::Aes128Gcm };
+        let header = RequestHeader::default(RequestCommand::UDP, security, addr.clone(), &config.password)?;
+        Ok(ClientAEADCodec::new(header))
+    }
